@@ -563,3 +563,6 @@ def c11_r7(ctx: Ctx, rule):
 
 RULES.setdefault("C11", []).append(Rule("C11.R8", "repeated identifiers survive the re-serialisation step: presence in the JSON container is key membership (shared with C01.R8)", 1, c01_r8, "F-PATH",
                                         "a loaded document with an attribute-less record sharing an identifier with another writes both, so write-load gives d again"))
+
+RULES.setdefault("C10", []).append(Rule("C10.R13", "repeated identifiers are all emitted: presence in the JSON container is key membership (shared with C01.R8)", 1, c01_r8, "F-PATH",
+                                        "an independent reader finds as many records as the document holds"))
